@@ -38,6 +38,24 @@ def mk(kind, seed):
         return U.random_nfa(rng, rng.randint(1, 3), "ab", eps="ε", prefix="v")
     if kind == "re":
         return U.random_regexp(rng, rng.randint(0, 5), ["a", "b"])
+    if kind in ("re01A", "re01B"):
+        # a small pool of trees over the leaves {0, 1, '0', '1'}; variant B swaps every constant with the symbol
+        # that prints like it - the two variants print identically, denote different languages, and meet in one
+        # process in an order that depends on the history
+        from gambatools import regexp as R
+        prng = random.Random("re01/%d" % (seed % 40))
+
+        def tree(d):
+            c = prng.random()
+            if d == 0 or c < 0.3:
+                leaf = prng.choice(["Z", "O", "s0", "s1", "s1", "O"])
+                if kind == "re01B":
+                    leaf = {"Z": "s0", "O": "s1", "s0": "Z", "s1": "O"}[leaf]
+                return {"Z": R.Zero(), "O": R.One(), "s0": R.Symbol("0"), "s1": R.Symbol("1")}[leaf]
+            if c < 0.5:
+                return R.Iteration(tree(d - 1))
+            return (R.Sum if c < 0.75 else R.Concat)(tree(d - 1), tree(d - 1))
+        return tree(3)
     if kind == "cfg":
         src = cfgsrc.random_src(rng, cnf=rng.random() < 0.3)
         if rng.random() < 0.35:
@@ -135,6 +153,21 @@ def ops_table():
         "cfg_accepts_word/poolB": (["cfgB"], lambda G, s: [ca.cfg_accepts_word(G, w) for w in ("", "a", "b", "ab", "aa")], V),
         "cfg_words_up_to_n/poolA": (["cfgA"], N3(ca.cfg_words_up_to_n), V),
         "cfg_words_up_to_n/poolB": (["cfgB"], N3(ca.cfg_words_up_to_n), V),
+        # grammars that already are in Chomsky normal form take the path WITHOUT the (copying) conversion
+        "cfg_accepts_word/cnf": (["cnf"], lambda G, s: [ca.cfg_accepts_word(G, w) for w in ("", "a", "b", "ab", "ba", "aab")], V),
+        "cfg_words_up_to_n/cnf": (["cnf"], N3(ca.cfg_words_up_to_n), V),
+        "generate_language/cnf": (["cnf"], N3(generate_language), V),
+        "cfg_derive_word/cnf": (["cnf"], lambda G, s: (lambda ws: [str(ca.cfg_derive_word(G, w)) for w in sorted(ws)[:2]])(
+            [w for w in ca.cfg_words_up_to_n(G, 3) if w]), V),
+        # '0' and '1' as alphabet symbols next to the constants 0 and 1 (they print alike)
+        "regexp_accepts_word/01A": (["re01A"], lambda r, s: [ra.regexp_accepts_word(r, w) for w in ("", "0", "1", "01", "11", "10")], V),
+        "regexp_accepts_word/01B": (["re01B"], lambda r, s: [ra.regexp_accepts_word(r, w) for w in ("", "0", "1", "01", "11", "10")], V),
+        "regexp_words_up_to_n/01A": (["re01A"], N3(ra.regexp_words_up_to_n), V),
+        "regexp_words_up_to_n/01B": (["re01B"], N3(ra.regexp_words_up_to_n), V),
+        "regexp_simplify/01A": (["re01A"], U1(ra.regexp_simplify), "re"),
+        "regexp_simplify/01B": (["re01B"], U1(ra.regexp_simplify), "re"),
+        "regexp_to_nfa/01A": (["re01A"], U1(ra.regexp_to_nfa), "fa"),
+        "regexp_to_nfa/01B": (["re01B"], U1(ra.regexp_to_nfa), "fa"),
         "cfg_to_chomsky": (["cfg"], U1(ca.cfg_to_chomsky), "cfg"),
         "cfg_add_new_start_variable": (["cfg"], U1(ca.cfg_add_new_start_variable), "cfg"),
         "cfg_remove_epsilon_rules": (["cfg"], U1(ca.cfg_remove_epsilon_rules), "cfg"),
@@ -254,7 +287,7 @@ def case_list(seed, n):
 
 def tasks(tier, seed):
     q = tier == "quick"
-    n = 1500 if q else 9000
+    n = 1800 if q else 10000
     hseeds = [0, 1, seed % 1000 + 2, 3, 4] if q else list(range(12))
     ts = []
     for i, h in enumerate(hseeds):
